@@ -1,6 +1,7 @@
 package main
 
 import (
+	"regexp"
 	"fmt"
 	"go/token"
 	"os"
@@ -405,12 +406,12 @@ func idomOf(b *ssa.BasicBlock) *ssa.BasicBlock {
 // could be evaluated, and not after the ranges said "not affected".
 var c18ListedGuards = []string{
 	// inside the loop over the advisory's affected entries
-	"(φ:int+1:int) < builtin.len(param0.Affected)",
+	"in-range: param0.Affected",
 	// the package's ecosystem is known
 	"0:deps.dev/util/resolve.System != guidedremediation/internal/util.OSVToDepsDevEcosystem(extractor.Package.Ecosystem(param1))",
 	// same ecosystem, same name
-	"extractor.Package.Ecosystem(param1) == ‹param0.Affected[(φ:int+1:int)]›.Package.Ecosystem",
-	"param1.Name == ‹param0.Affected[(φ:int+1:int)]›.Package.Name",
+	"extractor.Package.Ecosystem(param1) == param0.Affected[ι].Package.Ecosystem",
+	"param0.Affected[ι].Package.Name == param1.Name",
 }
 
 func c18Listed(p *Prog, r *Report, fn *ssa.Function) {
@@ -467,6 +468,13 @@ func c18Listed(p *Prog, r *Report, fn *ssa.Function) {
 
 // controlGuards: the branch decisions (rendered with polarity) that every path to b has taken:
 // for each dominator ending in an If, the successor through which b is reached when only one is.
+var inRangeRe = regexp.MustCompile(`^(?:\(φ:int\+1:int\)|φ:int) < builtin\.len\((.*)\)$`)
+
+// isCounterTest: block d ends in `counter(+1) < len(X)` on a counter phi of d itself.
+func isCounterTest(d *ssa.BasicBlock) bool {
+	return rangeEnd(d, "builtin.len(x) <= φ:int") == "range-end: x"
+}
+
 func controlGuards(b *ssa.BasicBlock) []string {
 	var out []string
 	for d := b.Idom(); d != nil; d = d.Idom() {
@@ -481,22 +489,29 @@ func controlGuards(b *ssa.BasicBlock) []string {
 		if r0 == r1 {
 			continue
 		}
-		out = append(out, renderCondV(ifi.Cond, r0))
+		g := renderCondV(ifi.Cond, r0)
+		if r0 {
+			// the loop head's own "still inside the collection" test, in its canonical form
+			if m := inRangeRe.FindStringSubmatch(g); m != nil && isCounterTest(d) {
+				g = "in-range: " + m[1]
+			}
+		}
+		out = append(out, g)
 	}
 	return out
 }
 
 // c18RangeSkips: audited decisions that keep a range (or an affected entry) from being evaluated.
 var c18RangeSkips = []string{
-	"\"SEMVER\":github.com/ossf/osv-schema/bindings/go/osvschema.RangeType != ‹‹…[(…+…)]›.Ranges[(φ:int+1:int)]›.Type",
-	"\"npm\":string != ‹param0.Affected[(φ:int+1:int)]›.Package.Ecosystem",
-	"0:int != slices.BinarySearchFunc(slices.Clone(‹‹…›.Ranges[(φ:int+1:int)]›.Events),param1.Version,*ssa.MakeClosure)#0 && builtin.len(slices.Clone(‹….Ranges[(φ:int+1:int)]›.Events)[(slices.BinarySearchFunc(slices.Clone(‹…›.Events),param1.Version,*ssa.MakeClosure)#0-1:int)].Introduced) != 0",
-	"builtin.len(param0.Affected) <= (φ:int+1:int)",
-	"builtin.len(‹param0.Affected[(φ:int+1:int)]›.Ranges) <= (φ:int+1:int)",
-	"builtin.len(‹param0.Affected[(φ:int+1:int)]›.Ranges) <= (φ:int+1:int)",
-	"builtin.len(‹slices.Clone(‹…[…]›.Events)[slices.BinarySearchFunc(slices.Clone(‹…›.Events),param1.Version,*ssa.MakeClosure)#0]›.Introduced) != 0",
-	"builtin.len(‹slices.Clone(‹…[…]›.Events)[slices.BinarySearchFunc(slices.Clone(‹…›.Events),param1.Version,*ssa.MakeClosure)#0]›.LastAffected) != 0",
-	"extractor.Package.Ecosystem(param1) != ‹param0.Affected[(φ:int+1:int)]›.Package.Ecosystem",
-	"param1.Name != ‹param0.Affected[(φ:int+1:int)]›.Package.Name",
-	"slices.Contains(‹param0.Affected[(φ:int+1:int)]›.Versions,param1.Version)",
+	"\"SEMVER\":github.com/ossf/osv-schema/bindings/go/osvschema.RangeType != param0.Affected[ι].Ranges[ι].Type",
+	"\"npm\":string != param0.Affected[ι].Package.Ecosystem",
+	"0:int != slices.BinarySearchFunc(slices.Clone(param0.Affected[ι].Ranges[ι].Events),param1.Version,*ssa.MakeClosure)#0 && builtin.len(slices.Clone(param0.Affected[ι].Ranges[ι].Events)[(slices.BinarySearchFunc(slices.Clone(….Affected[ι].Ranges[ι].Events),param1.Version,*ssa.MakeClosure)#0-1:int)].Introduced) != 0",
+	"builtin.len(slices.Clone(param0.Affected[ι].Ranges[ι].Events)[slices.BinarySearchFunc(slices.Clone(param0.Affected[ι].Ranges[ι].Events),param1.Version,*ssa.MakeClosure)#0].Introduced) != 0",
+	"builtin.len(slices.Clone(param0.Affected[ι].Ranges[ι].Events)[slices.BinarySearchFunc(slices.Clone(param0.Affected[ι].Ranges[ι].Events),param1.Version,*ssa.MakeClosure)#0].LastAffected) != 0",
+	"extractor.Package.Ecosystem(param1) != param0.Affected[ι].Package.Ecosystem",
+	"param0.Affected[ι].Package.Name != param1.Name",
+	"range-end: param0.Affected",
+	"range-end: param0.Affected[ι].Ranges",
+	"range-end: param0.Affected[ι].Ranges",
+	"slices.Contains(param0.Affected[ι].Versions,param1.Version)",
 }
